@@ -210,6 +210,26 @@ var scenarios = []*scenario{
   (dotimes (i 3) (setq out (add out (channel-pop r))))
   out)`,
 		check: multisetFIFO([]string{"p1", "p2", "p3"}, nil), canon: sortedVal},
+	// select: the explorer decides which ready clause fires (vsched.Select); two consumers evaluate ONE select form
+	// (the body of a shared function), and one consumer selects over an unbuffered and a buffered channel
+	{name: "a8-select-form-shared-by-two-consumers", group: "a", yield: true, quick: 2, thorough: 4,
+		src: `(let* ((c (make-channel 1)) (r (make-channel 4)) (out nil)
+       (worker (lambda () (select (c x (channel-push r x))))))
+  (channel-push c 'p0) (funcall worker) (channel-pop r) ; warm-up: from here on the compiled select form is shared
+  (run (funcall worker))
+  (run (funcall worker))
+  (channel-push c 'p1) (channel-push c 'p2)
+  (setq out (add out (channel-pop r)))
+  (setq out (add out (channel-pop r)))
+  out)`,
+		check: multisetFIFO([]string{"p1", "p2"}, nil), canon: sortedVal},
+	{name: "a9-select-over-unbuffered-and-buffered", group: "a", quick: 2, thorough: 3,
+		src: `(let ((c1 (make-channel 0)) (c2 (make-channel 1)) (out nil))
+  (run (progn (channel-push c1 'a1) (channel-push c1 'a2)))
+  (run (progn (channel-push c2 'b1) (channel-push c2 'b2)))
+  (dotimes (i 4) (select (c1 x (setq out (add out x))) (c2 y (setq out (add out y)))))
+  out)`,
+		check: multisetFIFO([]string{"a1", "a2", "b1", "b2"}, map[string][]string{"a": {"a1", "a2"}, "b": {"b1", "b2"}}), canon: sortedVal},
 	// ---- (b) mutex
 	{name: "b1-mutex-counter-2", group: "b", yield: true, quick: 3, thorough: 5,
 		src: `(let ((n 0) (d (make-channel 2)))
@@ -261,6 +281,31 @@ var scenarios = []*scenario{
   (channel-pop d) (channel-pop d)
   n)`,
 		check: all(expectVal("3"), noOverlap, mutexFree), canon: rawVal},
+	{name: "b7-compiled-critical-section-shared-by-routines", group: "b", yield: true, quick: 2, thorough: 3,
+		// as b6, but the closure was called once before the routines start: every form of its body is compiled by then
+		// and the SAME function objects (with-mutex-lock, let, setq) are evaluated by both routines
+		src: `(let ((n 0) (d (make-channel 2))
+      (bump nil))
+  (setq bump (lambda (en mi le) (with-mutex-lock the-mutex (tr en) (let ((v n)) (tr mi) (setq n (+ v 1))) (tr le))))
+  (funcall bump 'enter-w 'mid-w 'leave-w)
+  (run (progn (funcall bump 'enter-1 'mid-1 'leave-1) (channel-push d t)))
+  (run (progn (funcall bump 'enter-2 'mid-2 'leave-2) (channel-push d t)))
+  (channel-pop d) (channel-pop d)
+  n)`,
+		check: all(expectVal("3"), noOverlap, mutexFree), canon: rawVal},
+	{name: "a10-compiled-pop-push-worker-shared-by-two-consumers", group: "a", yield: true, quick: 2, thorough: 3,
+		// the worker was called once before the routines start (see b7): channel-pop / channel-push / let of the shared
+		// compiled body are evaluated by both consumers
+		src: `(let* ((c (make-channel 1)) (r (make-channel 4)) (out nil)
+       (worker (lambda () (let ((x (channel-pop c))) (channel-push r x)))))
+  (channel-push c 'p0) (funcall worker) (channel-pop r)
+  (run (funcall worker))
+  (run (funcall worker))
+  (channel-push c 'p1) (channel-push c 'p2)
+  (setq out (add out (channel-pop r)))
+  (setq out (add out (channel-pop r)))
+  out)`,
+		check: multisetFIFO([]string{"p1", "p2"}, nil), canon: sortedVal},
 	{name: "a6-two-producers-consumer-thread", group: "a", raceQuick0: true, quick: 1, thorough: 1,
 		src: `(let ((c (make-channel 1)) (r (make-channel 4)) (out nil))
   (run (progn (channel-push c 'a1) (channel-push c 'a2)))
